@@ -27,7 +27,7 @@ CHECK = {
              "distinct_nontrivial = number of distinct (C function, outcome class) signatures, outcome class in "
              "{nonempty, empty, err-<Status>, hit/miss, ...}, registered only when the comparison with the C++ twin "
              "was decided. emptyacc stage: one array accessor per case on an empty array (known UBSan finding)."),
-    "min_nontrivial": {"quick": 150, "thorough": 170},
+    "min_nontrivial": {"quick": 200, "thorough": 250},
     "exhaustive": {"quick": False, "thorough": False},
     "stages": [
         {"name": "mirror", "variant": "asan", "harness": "c20_cbind.cpp",
@@ -47,6 +47,7 @@ CHECK = {
         "LeakSanitizer has no false positives but can miss a leak whose address is still in a dead stack slot or register at the time of the check; checks run after every case and once more at worker end",
         "array accessors are called only for non-empty arrays in the mirror stage (the empty case is the emptyacc stage)",
         "inputs stay inside the domain where the C++ call itself is defined (no out-of-range normalIdx / halfedge indices, no malformed run tables beyond a wrong runIndex length): out-of-domain inputs are C09's subject",
+        "the smoothing/refine wrappers (smooth_out, smooth_by_normals, refine*, smooth*/ec_smooth*) only receive primitives, non-degenerate affine images of primitives and caller-built primitive meshes, and the Quality segment count is 0 or >= 4: three crashes of the CORE library on other geometry (SmoothOut of a partial Revolve, RefineToTolerance of a zero-thickness solid, Sphere(r,0) with 1..3 global segments) reproduce in pure C++ and are not the binding's",
         "g++ -O1 -fsanitize=address,undefined build of /repo's working tree incl. bindings/c, -DNDEBUG, MANIFOLD_PAR=-1",
     ],
 }
